@@ -87,11 +87,14 @@ def welch_ref(x, y, fs, nx, nov):
 
 
 def pick_nx_pov(rng, tier):
-    nxs = [16, 28, 32, 48, 56, 64, 88, 100, 112, 128, 154, 200, 256, 512, 1022, 1024] + ([2048, 4094, 4096] if tier == "thorough" else [])
+    nxs = [16, 20, 28, 32, 40, 48, 50, 56, 64, 88, 100, 112, 128, 154, 200, 256, 500, 512, 1000, 1022, 1024] + ([2048, 4094, 4096] if tier == "thorough" else [])
     if rng.random() < 0.15:
         nxs = [17, 25, 45, 125, 243, 625] + ([4095] if tier == "thorough" else [])  # odd segment lengths: the last line is below Nyquist
     nx = int(rng.choice(nxs))
     povs = [p for p in (0.0, 0.2, 0.25, 0.5, 0.75) if float(nx * p).is_integer() and (p != 0.2 or nx % 2)]
+    more = [p for p in (0.1, 0.3, 0.4, 0.6, 0.7, 0.8, 0.9, 0.875) if abs(nx * p - round(nx * p)) < 1e-9 and int(nx * p) == round(nx * p)]  # e.g. nxseg = 100, 200, 1000 with 0.8 / 0.9
+    if more and rng.random() < 0.5:
+        povs = more
     return nx, float(rng.choice(povs))
 
 
